@@ -76,7 +76,7 @@ def run(ctx):
 def replay(rp):
     P = lib.import_repo()
     s = "".join(chr(c) for c in rp["source"])
-    out = ec.replay_case(P, rp["grammar"], s, rp["offset"], MODE, decoy=rp.get("decoy"))
+    out = ec.replay_case(P, rp["grammar"], s, rp["offset"], MODE, decoy=rp.get("decoy"), disturbance=rp.get("disturb"))
     print("implementation now:", out, "\nrecorded:", rp["implementation"], "\nmodel:", rp["model"], "\nreference ends:", rp.get("reference_ends"))
     d = dict(rp)
     kind = rp["query"].split()[0]
